@@ -51,6 +51,7 @@ Definition run_C13 (x : sx) : sx :=
                           (of_bool (spec_ts_set ws o (hd_ts SA) (items SB))) 0
             | 2 => triple (of_bool (test_set_ts ws o SA (hd_ts SB)))
                           (of_bool (spec_set_ts ws o (items SA) (hd_ts SB))) 0
+            | 9 => triple (of_bool false) (of_bool false) 0   (* annotation without text in that resource *)
             | _ => triple (of_bool (test_set_set ws o SA SB))
                           (of_bool (spec_set_set ws o (items SA) (items SB))) 0
             end) codes).
